@@ -415,6 +415,8 @@ pub fn garbage_line() -> impl Strategy<Value = Vec<u8>> {
         1 => vec(Just(0u8), 1..10),
         2 => vec(any::<u8>(), 1..60).prop_map(|v| v.into_iter().filter(|&b| b != b'\n').collect()),
         1 => Just(b"\xff\xfe\tgarbage".to_vec()),
+        // valid UTF-8 text with multi-byte characters, long enough to reach past the checksum column
+        2 => "[а-яё😀éa-z \t]{40,120}".prop_map(|s| s.into_bytes()),
         1 => Just(b"0000000000000000000000000000000000000000000000000000000000000000\t{}".to_vec()),
     ]
 }
@@ -429,6 +431,7 @@ pub fn bdamage() -> impl Strategy<Value = BDamage> {
         1 => (any::<u16>(), 1usize..120).prop_map(|(o, l)| BDamage::DuplicateRange { off: o as usize, len: l }),
         2 => (0usize..6).prop_map(BDamage::StripNewline),
         1 => garbage_line().prop_map(BDamage::AppendRaw),
+        2 => any::<u16>().prop_map(|o| BDamage::AppendLineFrom(o as usize)),
     ]
 }
 
